@@ -81,6 +81,10 @@ def run_case(rs, ctx):
             Q.append([50.0 + float(v) for v in gen.gen_contexts(rs, 1, dims)[0]])
         else:
             Q.append(gen.gen_contexts(rs, 1, dims, hi=5)[0])
+    if ctx.index % 12 == 5:
+        # one long batch: more than 100 query rows go through a single worker call
+        Q += gen.gen_contexts(rs, 126, dims, hi=5)
+        nq = len(Q)
     boundary = bool(rs.integers(2))
     probs = None
     if pk == "radius":
